@@ -134,7 +134,10 @@ Definition set_avail (bs : list backend) (id : Z) (a : bool) : list backend :=
 Inductive op :=
 | OPick (k : nat)                       (* k calls of Balance(WrrSmooth) *)
 | OUpdate (conf : list (Z * Z))         (* BalanceRR.Update *)
-| OAvail (id : Z) (a : bool).           (* BfeBackend.SetAvail on the backend with that id *)
+| OAvail (id : Z) (a : bool)            (* BfeBackend.SetAvail on the backend with that id *)
+| OSetSS (t : Z)                        (* BalanceRR.SetSlowStart(t seconds) *)
+| OElapsed (id e : Z)                   (* clock seam: e milliseconds have passed since the ramp of backend id began *)
+| ORestart (id : Z).                    (* BfeBackend.SetRestart(true) (health check brought the backend back) *)
 
 Fixpoint picks_by (ch : st -> nat) (bs : list backend) (k : nat) {struct k} : list Z * list backend :=
   match k with
@@ -149,6 +152,7 @@ Definition apply_op (bs : list backend) (o : op) : list Z * list backend :=
   | OPick k => picks_by swrr_pick bs k
   | OUpdate conf => ([], update bs conf)
   | OAvail id a => ([], set_avail bs id a)
+  | _ => ([], bs)                        (* slow-start operations: only in the extended model below *)
   end.
 Fixpoint run_ops (bs : list backend) (ops : list op) : list (list Z) :=
   match ops with
@@ -245,3 +249,175 @@ Example reload_witness :
   run_ops (init [(0,5);(1,1);(2,1)]) [OPick 3; OUpdate [(0,1);(1,1);(2,3)]; OPick 10]
   = [[0;0;1]; []; [0;2;2;2;0;2;1;2;2;0]].
 Proof. reflexivity. Qed.
+
+(* ================================================================ slow start (backend_rr.go initSlowStart /
+   updateSlowStart, bal_rr.go SetSlowStart / checkSlowStart; UpdateWeight also sets weightSS.final — /repo fix).
+   Layered on the backend list: every backend carries a slow-start record
+     (final, inSlowStart, elapsed, restart, slowStartTime)
+   where `elapsed` = milliseconds since weightSS.startTime as set by the harness through the clock-seam hook
+   (the model's clock stands still between OElapsed operations), `restart` = BfeBackend.restarted.
+   Balance (not sticky) first runs checkSlowStart when brr.slowStartTime > 0. *)
+Definition ssrec := (Z * bool * Z * bool * Z)%type.
+Definition sb := (backend * ssrec)%type.
+Definition ss_final (s : ssrec) : Z := let '(f, _, _, _, _) := s in f.
+Definition ss_in (s : ssrec) : bool := let '(_, i, _, _, _) := s in i.
+Definition ss_el (s : ssrec) : Z := let '(_, _, e, _, _) := s in e.
+Definition ss_rs (s : ssrec) : bool := let '(_, _, _, r, _) := s in r.
+Definition ss_T (s : ssrec) : Z := let '(_, _, _, _, t) := s in t.
+Definition ss0 (w : Z) (rs : bool) : ssrec := (100 * w, false, 0, rs, 0).
+
+(* one iteration of the checkSlowStart loop (brr.slowStartTime = T > 0):
+   if restarted { restarted = false; initSlowStart(T) }; updateSlowStart() *)
+Definition check_one (T : Z) (x : sb) : sb :=
+  let '((id, w, c, av), (fin, inss, e, rs, sT)) := x in
+  (* initSlowStart: slowStartTime = T; startTime = now; inSlowStart = true; weight = current = 1 *)
+  let '(w1, c1, inss1, e1, sT1) := if rs then (1, 1, true, 0, T) else (w, c, inss, e, sT) in
+  (* updateSlowStart: weight = final * elapsed / slowStartTime (Duration arithmetic, truncated) *)
+  if inss1 then
+    let wt := if sT1 =? 0 then fin else Z.quot (fin * e1) (1000 * sT1) in
+    if wt >=? fin then ((id, fin, c1, av), (fin, false, e1, false, sT1))
+    else ((id, wt, c1, av), (fin, true, e1, false, sT1))
+  else ((id, w1, c1, av), (fin, inss1, e1, false, sT1)).
+Definition check_ss (T : Z) (l : list sb) : list sb := if 0 <? T then map (check_one T) l else l.
+
+Definition init2 (conf : list (Z * Z)) : list sb := map (fun e => (init_backend e, ss0 (snd e) false)) conf.
+Definition set_final (s : ssrec) (f : Z) : ssrec := let '(_, i, e, r, t) := s in (f, i, e, r, t).
+Definition update2 (l : list sb) (conf : list (Z * Z)) : list sb :=
+  flat_map (fun x => match lookup (b_id (fst x)) conf with
+                     | Some w => [(update_weight (fst x) w, set_final (snd x) (100 * w))]
+                     | None => []
+                     end) l
+  ++ map (fun e => (init_backend e, ss0 (snd e) true))
+         (filter (fun e => negb (existsb (Z.eqb (fst e)) (map (fun x : sb => b_id (fst x)) l))) conf).
+Definition on_id (id : Z) (f : sb -> sb) (l : list sb) : list sb :=
+  map (fun x => if b_id (fst x) =? id then f x else x) l.
+Definition set_avail2 (l : list sb) (id : Z) (a : bool) : list sb :=
+  on_id id (fun x => let '((i, w, c, _), s) := x in ((i, w, c, a), s)) l.
+Definition set_elapsed (l : list sb) (id e : Z) : list sb :=
+  on_id id (fun x => let '(b, (f, i, _, r, t)) := x in (b, (f, i, e, r, t))) l.
+Definition set_restart (l : list sb) (id : Z) : list sb :=
+  on_id id (fun x => let '(b, (f, i, e, _, t)) := x in (b, (f, i, e, true, t))) l.
+
+(* one Balance call with algorithm `bal` (smoothBalance, or leastConnsSmoothBalance in Gslb.v) *)
+Definition pick2 (bal : list backend -> option (Z * list backend)) (T : Z) (l : list sb) : Z * list sb :=
+  let l1 := check_ss T l in
+  match bal (map fst l1) with
+  | Some (p, upd) => (p, combine upd (map snd l1))
+  | None => (-1, l1)
+  end.
+Fixpoint picks2 (bal : list backend -> option (Z * list backend)) (T : Z) (l : list sb) (k : nat) {struct k}
+  : list Z * list sb :=
+  match k with
+  | O => ([], l)
+  | S k' => let '(p, l1) := pick2 bal T l in let '(ps, l2) := picks2 bal T l1 k' in (p :: ps, l2)
+  end.
+Definition apply_op2 (st : Z * list sb) (o : op) : Z * list sb :=
+  let '(T, l) := st in
+  match o with
+  | OPick _ => st
+  | OUpdate conf => (T, update2 l conf)
+  | OAvail id a => (T, set_avail2 l id a)
+  | OSetSS t => (t, l)
+  | OElapsed id e => (T, set_elapsed l id e)
+  | ORestart id => (T, set_restart l id)
+  end.
+Fixpoint run2 (bal : list backend -> option (Z * list backend)) (st : Z * list sb) (ops : list op) : list (list Z) :=
+  match ops with
+  | [] => []
+  | OPick k :: r => let '(ps, l') := picks2 bal (fst st) (snd st) k in ps :: run2 bal (fst st, l') r
+  | o :: r => [] :: run2 bal (apply_op2 st o) r
+  end.
+(* trace validation with a follow function (smooth_follow / wlc follow) *)
+Fixpoint follow2 (fol : list backend -> Z -> option (list backend)) (T : Z) (l : list sb) (ps : list Z) : option (list sb) :=
+  match ps with
+  | [] => Some l
+  | p :: r => let l1 := check_ss T l in
+              match fol (map fst l1) p with
+              | Some upd => follow2 fol T (combine upd (map snd l1)) r
+              | None => None
+              end
+  end.
+Fixpoint check2 (fol : list backend -> Z -> option (list backend)) (st : Z * list sb) (ops : list op) (obs : list (list Z)) : bool :=
+  match ops, obs with
+  | [], [] => true
+  | OPick k :: r, ps :: obs' =>
+    (Nat.eqb (length ps) k) &&
+    match follow2 fol (fst st) (snd st) ps with Some l' => check2 fol (fst st, l') r obs' | None => false end
+  | OPick _ :: _, _ => false
+  | o :: r, [] :: obs' => check2 fol (apply_op2 st o) r obs'
+  | _, _ => false
+  end.
+
+(* ---- C01 specification with slow start: a stable segment is a maximal run of picks during which the eligible
+   (id, effective weight) list — as checkSlowStart leaves it before each pick — does not change.  Exact windows are
+   demanded when all effective weights are multiples of 100 (always the case once every ramp has finished). *)
+Definition segment_ok2 (el : list (Z * Z)) (ps : list Z) : bool :=
+  if forallb (fun e => snd e mod 100 =? 0) el
+  then segment_ok (map (fun e => (fst e, snd e / 100)) el) ps
+  else forallb (fun p => existsb (Z.eqb p) (map fst el)) ps.
+(* state: T, credit-free use of the sb list, eligible list of the open segment (None before the first pick), its picks *)
+Fixpoint spec_picks (T : Z) (l : list sb) (cur : option (list (Z * Z))) (acc : list Z) (ps : list Z)
+  : bool * list sb * option (list (Z * Z)) * list Z :=
+  match ps with
+  | [] => (true, l, cur, acc)
+  | p :: r =>
+    let l1 := check_ss T l in
+    let el := el_of (map fst l1) in
+    match cur with
+    | Some c => if elig_eqb c el then spec_picks T l1 cur (acc ++ [p]) r
+                else let '(ok, l2, cur2, acc2) := spec_picks T l1 (Some el) [p] r in (segment_ok2 c acc && ok, l2, cur2, acc2)
+    | None => spec_picks T l1 (Some el) [p] r
+    end
+  end.
+Fixpoint spec2 (st : Z * list sb) (cur : option (list (Z * Z))) (acc : list Z) (ops : list op) (obs : list (list Z)) : bool :=
+  match ops, obs with
+  | [], [] => match cur with Some c => segment_ok2 c acc | None => true end
+  | OPick k :: r, ps :: obs' =>
+    (Nat.eqb (length ps) k) &&
+    let '(ok, l', cur', acc') := spec_picks (fst st) (snd st) cur acc ps in ok && spec2 (fst st, l') cur' acc' r obs'
+  | OPick _ :: _, _ => false
+  | o :: r, [] :: obs' => spec2 (apply_op2 st o) cur acc r obs'
+  | _, _ => false
+  end.
+(* known-finding class 1 with slow start: in the model run some segment starts with an eligible credit <> weight *)
+Fixpoint carried_picks (T : Z) (l : list sb) (cur : option (list (Z * Z))) (k : nat) {struct k} : bool * list sb * option (list (Z * Z)) :=
+  match k with
+  | O => (false, l, cur)
+  | S k' =>
+    let l1 := check_ss T l in
+    let el := el_of (map fst l1) in
+    let changed := match cur with Some c => negb (elig_eqb c el) | None => true end in
+    let bad := changed && negb (fresh_state (map fst l1)) in
+    let '(_, l2) := pick2 smooth T l in
+    let '(b, l3, cur3) := carried_picks T l2 (Some el) k' in (bad || b, l3, cur3)
+  end.
+Fixpoint carried2 (st : Z * list sb) (cur : option (list (Z * Z))) (ops : list op) : bool :=
+  match ops with
+  | [] => false
+  | OPick k :: r => let '(b, l', cur') := carried_picks (fst st) (snd st) cur k in b || carried2 (fst st, l') cur' r
+  | o :: r => carried2 (apply_op2 st o) cur r
+  end.
+Definition is_ss_op (o : op) : bool :=
+  match o with OSetSS _ | OElapsed _ _ | ORestart _ => true | _ => false end.
+
+(* ---- C03 specification for Balance on one BalanceRR with slow start: the pick is an available backend whose
+   effective AND configured (final) weight are positive; the error is returned iff no such backend exists *)
+Definition sb_ok (x : sb) : bool := elig (fst x) && (0 <? ss_final (snd x)).
+Fixpoint spec3_picks (T : Z) (l : list sb) (ps : list Z) : bool * list sb :=
+  match ps with
+  | [] => (true, l)
+  | p :: r =>
+    let l1 := check_ss T l in
+    let good := if p =? -1 then negb (existsb (fun x => elig (fst x)) l1)
+                else existsb (fun x => (b_id (fst x) =? p) && sb_ok x) l1 in
+    let '(ok, l2) := spec3_picks T l1 r in (good && ok, l2)
+  end.
+Fixpoint spec3 (st : Z * list sb) (ops : list op) (obs : list (list Z)) : bool :=
+  match ops, obs with
+  | [], [] => true
+  | OPick k :: r, ps :: obs' =>
+    (Nat.eqb (length ps) k) && let '(ok, l') := spec3_picks (fst st) (snd st) ps in ok && spec3 (fst st, l') r obs'
+  | OPick _ :: _, _ => false
+  | o :: r, [] :: obs' => spec3 (apply_op2 st o) r obs'
+  | _, _ => false
+  end.
